@@ -76,7 +76,7 @@ def gen_fault(rng, sc, K, kv_ops):
         return {'kind': 'step', 'pos': rng.randrange(n + 1), 'phase': 'rowfunc', 'exc': exc, 'call': rng.choice([0, 1, 3])}
     if kind == 'step':
         pos = rng.randrange(n + 1)
-        ph = rng.choice(['package', 'row', 'row', 'end', 'after-all', 'rowfunc'])
+        ph = rng.choice(['package', 'row', 'row', 'end', 'after-all', 'rowfunc', 'cond-predicate', 'cond-factory'])
         f = {'kind': 'step', 'pos': pos, 'phase': ph, 'exc': exc}
         if ph in ('row', 'end'):
             f['res'] = rng.randrange(nres + 1)
@@ -254,7 +254,7 @@ class C04(Prop):
     REAL_VS_STUB = {'real': ['all dataflows code of the generated pipeline', 'parallelize.py under seam B'],
                     'stub': ['file-system seam (io.FileIO subclass, os wrappers)', 'KVFile twin (counts ops, raises sqlite3.OperationalError)', 'seam B twins for the parallelize pipelines']}
     PROBES = ['fault-not-reached', 'observer-after-failure', 'fault-in-package-phase', 'fault-at-exhaustion', 'fault-after-all', 'io-error-fired', 'kv-error-fired',
-              'source-raise-in-sample', 'source-raise-after-sample', 'parallelize-upstream-raise', 'parallelize-downstream-raise', 'prebuilt-processor-error', 'poison-fired', 'poison-on-a-key-cell', 'sweep-complete'] + ['in-failed-pipeline:' + k for k in sorted(ST.GENS)]
+              'source-raise-in-sample', 'source-raise-after-sample', 'parallelize-upstream-raise', 'parallelize-downstream-raise', 'prebuilt-processor-error', 'poison-fired', 'poison-on-a-key-cell', 'fault-in-conditional', 'sweep-complete'] + ['in-failed-pipeline:' + k for k in sorted(ST.GENS)]
     TIERS = {'quick': dict(runs=900, wall=100, run_wall=300),
              'thorough': dict(runs=25000, wall=1700, run_wall=600)}
     SHRINK_FROZEN = ('fields', 'gen_stats')
@@ -308,6 +308,8 @@ class C04(Prop):
             for pos in range(n + 1):
                 faults.append({'kind': 'step', 'pos': pos, 'phase': 'package', 'exc': nxt()})
                 faults.append({'kind': 'step', 'pos': pos, 'phase': 'after-all', 'exc': nxt()})
+                faults.append({'kind': 'step', 'pos': pos, 'phase': 'cond-predicate', 'exc': nxt()})
+                faults.append({'kind': 'step', 'pos': pos, 'phase': 'cond-factory', 'exc': nxt()})
                 faults.append({'kind': 'step', 'pos': pos, 'phase': 'rowfunc', 'call': 0, 'exc': nxt()})
                 faults.append({'kind': 'step', 'pos': pos, 'phase': 'rowfunc', 'call': 1, 'exc': 'StopIteration'})
                 for r_ in range(nres + 1):
@@ -380,8 +382,8 @@ class C04(Prop):
             pos = fault['pos']
             hit = steps[pos]['step'] if pos < len(steps) else 'end-of-pipeline'
             fail_pos = pos - 0.5
-            {'package': 'fault-in-package-phase', 'end': 'fault-at-exhaustion', 'after-all': 'fault-after-all'}.get(fault['phase']) and ctx.probe(
-                {'package': 'fault-in-package-phase', 'end': 'fault-at-exhaustion', 'after-all': 'fault-after-all'}[fault['phase']])
+            {'package': 'fault-in-package-phase', 'end': 'fault-at-exhaustion', 'after-all': 'fault-after-all', 'cond-predicate': 'fault-in-conditional', 'cond-factory': 'fault-in-conditional'}.get(fault['phase']) and ctx.probe(
+                {'package': 'fault-in-package-phase', 'end': 'fault-at-exhaustion', 'after-all': 'fault-after-all', 'cond-predicate': 'fault-in-conditional', 'cond-factory': 'fault-in-conditional'}[fault['phase']])
         elif fault['kind'] == 'poison':
             ctx.probe('poison-fired')
             if fault.get('res_name'):
